@@ -31,6 +31,31 @@ CLAIMS = {
     ),
 }
 
+CLAIMS["C09"] = (
+    "Lean: (1) the effect summary regenerated from /repo's source on every run (ast may-alias analysis of every iodata "
+    "function reachable from dump_one/dump_many/write_input) contains no store, in-place operation or mutating call "
+    "rooted at the caller's objects outside a reviewed 3-entry list (decide over Gen/Effects); (2) frame lemma over an "
+    "abstract heap for programs of any length. The summary's completeness is cross-checked on every run by deep "
+    "snapshots (array bytes, dict contents, derived properties, member identities) around every dump of ~200 corpus and "
+    "hand-built objects x 13 formats x allow_changes, dump_many and both input writers, twice in a row; returned-object "
+    "identity, announced conversions and numerical equivalence of converted wavefunctions are checked on the real code.",
+    "Lean 4 proof over a source-extracted effect summary (translator) + frame lemma; dynamic deep-snapshot search",
+    "Trusted-but-cross-checked: completeness of the static alias analysis (harness/vh/effects.py). Equivalence of "
+    "converted objects is numerical (search), the algebraic statement is C14's.",
+    "DESIGN.md §5 C09",
+)
+CLAIMS["C16"] = (
+    "Lean: (1) the effect summary regenerated from /repo's source on every run contains no store/in-place operation/"
+    "mutating call rooted at a module-level table (decide over Gen/Effects; empty allowed list); (2) for every history "
+    "(any permutation, repetition or interleaving of atomic calls) of read-only calls the shared state is unchanged and "
+    "each call returns what it returns alone (induction over the history), with a witness that the hypothesis is needed. "
+    "Cross-check on the real code: a pool of ~120-700 API calls run alone in fresh interpreters vs shuffled/repeated "
+    "sequential histories vs 2-16 threads (switch interval 1e-6), plus snapshots of all ~150 module-level tables.",
+    "Lean 4 proof over a source-extracted effect summary (translator) + induction over histories; dynamic search",
+    "Atomicity of a call w.r.t. shared state is the model's abstraction; warning delivery under threads not covered.",
+    "DESIGN.md §5 C16",
+)
+
 NOT_YET = {}
 
 
